@@ -26,7 +26,7 @@ COMPONENTS = {"real": ["amaranth.lib.crc.Algorithm/Parameters.compute/residue/_m
                        "amaranth.lib.crc.catalog", "amaranth.hdl elaboration", "amaranth.sim"],
               "stub": ["PermSet scheduler seam", "clock driver", "bit-serial Williams model"]}
 EXPECTED_PROBES = ("idle-gap", "restart", "lone-start", "start+valid", "glitch-in", "inactive", "own_trailer_match",
-                   "other_trailer_nomatch", "catalogue_check_value")
+                   "other_trailer_nomatch", "catalogue_check_value", "second_processor_of_same_parameters", "compute_from_iterator")
 
 with open(os.path.join(os.path.dirname(__file__), "crc_checks.json")) as _f:
     CHECKS = json.load(_f)
@@ -175,7 +175,8 @@ def gen_case_i(seed, tier, index):
             first = False
         cycle(0, 0, cur["data"])
     return {"config": config, "sched": {"mode": sc.choice(["seeded", "seeded", "reverse", "insertion"]),
-                                        "seed": sc.randrange(1 << 32)}, "steps": steps, "reuse": fl.random() < 0.15}
+                                        "seed": sc.randrange(1 << 32)}, "steps": steps, "reuse": fl.random() < 0.15,
+            "sibling": fl.choice([0, 0, 1, 2])}
 
 
 def gen_case(seed, tier):
@@ -215,7 +216,14 @@ def run_case(case):
         else:
             P["random_params"] += 1
 
-    dut = crclib.Processor(params)
+    if case.get("sibling"):
+        # a transmitter and a receiver built from the same Parameters object: the second one is the one under test
+        # (alternating between Processor(params) and params.create())
+        sib = crclib.Processor(params) if case["sibling"] == 1 else params.create()
+        P["second_processor_of_same_parameters"] = 1
+        dut = params.create() if case["sibling"] == 1 else crclib.Processor(params)
+    else:
+        dut = crclib.Processor(params)
     run = ManualRun(dut, [DomainSpec("sync", edge=config["edge"])],
                     sched_mode=case["sched"]["mode"], sched_seed=case["sched"]["seed"])
     k = n // dw if n % dw == 0 else None
@@ -303,7 +311,12 @@ def run_case(case):
                     P["other_trailer_nomatch"] += 1
                 # software clause on the same words
                 if len(words) <= 80:
-                    sw = params.compute(words)
+                    # the same words as a list, and (every third time) as a one-shot iterator
+                    if P["software_compares"] % 3 == 2:
+                        sw = params.compute(iter(list(words)))
+                        P["compute_from_iterator"] = P.get("compute_from_iterator", 0) + 1
+                    else:
+                        sw = params.compute(words)
                     P["software_compares"] += 1
                     exp = williams_out(p, regs[-1])
                     if sw != exp:
